@@ -283,7 +283,7 @@ def check_c17(ctx, led):
         printed = False
         for t in tries:
             for h in t.handlers:
-                for nm in G.handler_names(h):
+                for nm in G.handler_names(h, module):
                     if nm in ("CVSSError", "Exception", "*"):
                         covered = True
                         printed = any(isinstance(x, ast.Call) and isinstance(x.func, ast.Name) and x.func.id == "print" and x.args and isinstance(x.args[0], ast.Name) and x.args[0].id == h.name for x in ast.walk(h))
@@ -306,7 +306,7 @@ def check_c17(ctx, led):
         names = set()
         for t in G.enclosing_try_handlers(module, c):
             for h in t.handlers:
-                names |= set(G.handler_names(h))
+                names |= set(G.handler_names(h, module))
         led.check(
             {"KeyboardInterrupt", "EOFError"} <= names or "*" in names or "BaseException" in names,
             "C17.contain.eof",
@@ -320,7 +320,7 @@ def check_c17(ctx, led):
             names = set()
             for t in G.enclosing_try_handlers(module, n):
                 for h in t.handlers:
-                    names |= set(G.handler_names(h))
+                    names |= set(G.handler_names(h, module))
             led.check(
                 "IndexError" in names or "Exception" in names or "*" in names,
                 "C17.contain.index",
